@@ -56,7 +56,10 @@ def make(p):
     model = {'kernel': kname, 'bandwidth': p['bandwidth'], 'exponent': p['q'], 'diag': p['diag'],
              'bandwidth_mode': 'adaptive' if (p['adaptive'] and kname != 'sum_power_laplace') else 'constant'}
     model.update(kw)
-    ctor = dict(rfm_params={'model': model, 'fit': {'reg': 1e-2, 'iters': p['iters'], 'verbose': False, 'early_stop_rfm': False}},
+    fit = {'reg': 1e-2, 'iters': p['iters'], 'verbose': False, 'early_stop_rfm': False}
+    if p.get('solver'):
+        fit['solver'] = p['solver']
+    ctor = dict(rfm_params={'model': model, 'fit': fit},
                 max_leaf_size=p['L'], device='cpu', verbose=False, random_state=p['dseed'], split_method=p['method'],
                 n_trees=p['trees'], overlap_fraction=p['f'], classification_mode=p['mode'], use_temperature_tuning=False,
                 split_temperature=None, tuning_metric=None)
@@ -130,9 +133,13 @@ def ref_leaf(kind, model_cfg, leafp, Xtr64, rows64, eps):
     return out, allow, (K, centers, w, mat, L, q, kw)
 
 
-def decode(conv, num, eps=1e-3):
-    """independent numpy decoding of raw leaf outputs to probabilities (C13 proves the codec)"""
+def decode(conv, num, eps=1e-3, logit=False):
+    """independent numpy decoding of raw leaf outputs to probabilities (C13 proves the codec); `logit`: the leaves were
+    fitted by the logistic solver, their raw output is a logit (sigmoid first, clamp 1e-10)"""
     num = np.asarray(num, dtype=np.float64)
+    if logit:
+        num = 1.0 / (1.0 + np.exp(-num))
+        eps = 1e-10
     if conv.mode == 'zero_one':
         if num.shape[1] == 1:
             num = np.concatenate([1 - num, num], axis=1)
@@ -262,14 +269,15 @@ def execute(chunk):
                         res['failures'].append({'signature': 'C01:ensemble-mean', 'detail': 'predict differs from the mean over trees of the leaf formulas'})
                 else:
                     conv = m.class_converter_
-                    proba_ref = np.mean([decode(conv, r) for r in raws], axis=0)
+                    logit = p.get('solver') == 'log_reg'
+                    proba_ref = np.mean([decode(conv, r, logit=logit) for r in raws], axis=0)
                     PP = m.predict_proba(Qk).astype(np.float64)
                     # the decoder is 1-Lipschitz-ish per entry up to the inverse matrix norm; scale the allowance conservatively
                     scale = 4.0 if conv.mode == 'zero_one' else 4.0 * float(np.abs(conv._invA.numpy()).sum(1).max())
                     pa = scale * mean_allow.max(axis=1, keepdims=True) + 1e-5
                     if PP.shape != proba_ref.shape or (np.abs(PP - proba_ref) > pa).any():
                         res['failures'].append({'signature': 'C01:probabilities', 'detail': f'predict_proba differs from the decoded leaf formulas by {np.abs(PP - proba_ref).max():.3e}'})
-                    lab_ref_p = decode(conv, mean_raw)
+                    lab_ref_p = decode(conv, mean_raw, logit=logit)
                     srt = np.sort(lab_ref_p, axis=1)
                     clear = (srt[:, -1] - srt[:, -2]) > 4 * pa[:, 0]
                     if (P[clear] != lab_ref_p.argmax(1)[clear]).any():
@@ -361,6 +369,12 @@ def gen_cases(run):
         cases.append(dict(family='fitted-models', task=task, mode=mode, kernel=list(KERNELS[k]), q=1.0, diag=False, adaptive=False,
                           bandwidth=5.0, iters=1, L=10 ** 6, n=60, d=3, method='random', trees=3, f=0.0, outputs=2, classes=3,
                           exact=False, dseed=r.randint(0, 10 ** 6)))
+    # leaves fitted by the logistic solver (binary, zero_one): raw outputs are logits, decoded by the sigmoid in both APIs
+    for k in range(3 if run.tier == 'quick' else 16):
+        cases.append(dict(family='fitted-models', task='class', mode='zero_one', kernel=list(KERNELS[k % len(KERNELS)]), q=1.0, diag=False,
+                          adaptive=False, bandwidth=r.choice([2.0, 5.0]), iters=r.choice([0, 1]), L=[10 ** 6, 40, 24][k % 3], n=r.choice([60, 100]),
+                          d=r.randint(2, 4), method=r.choice(['random', 'pca']), trees=[1, 2, 1][k % 3], f=0.0, outputs=1, classes=2,
+                          exact=False, solver='log_reg', dseed=r.randint(0, 10 ** 6)))
     # very large batches: cross the 20,000-row chunking of the product kernel and the 50,000-row chunking of RFM.predict
     bigs = [('l1', 20100), ('l2', 50100)] if run.tier == 'quick' else [('l1', 20100), ('l1', 40100), ('l2', 50100), ('lpq', 50100), ('l2_high_dim', 50100)]
     for kn, big in bigs:
